@@ -442,6 +442,13 @@ func c09Spec() propSpec {
 
 func TestVerifC09MirrorHostile(t *testing.T) { runProp(t, c09Spec()) }
 
+// The hostile histories under the data race detector (thorough tier only).
+func TestVerifC09MirrorHostileDetector(t *testing.T) {
+	sp := c09Spec()
+	sp.test = "TestVerifC09MirrorHostileDetector"
+	runProp(t, sp)
+}
+
 // ---------------------------------------------------------------------------
 // C01: committed only on a valid >2/3 precommit certificate
 
@@ -1406,3 +1413,12 @@ func c11ConcSpec() propSpec {
 }
 
 func TestVerifC11ConcurrentCallers(t *testing.T) { runProp(t, c11ConcSpec()) }
+
+// The same unit under the data race detector (thorough tier only): a view, proof or header that the
+// kernel hands to a caller or consumer without a private copy is reported by the detector as soon as
+// both sides touch it, whether or not the contents happen to differ at an observation point.
+func TestVerifC11ConcurrentCallersDetector(t *testing.T) {
+	sp := c11ConcSpec()
+	sp.test = "TestVerifC11ConcurrentCallersDetector"
+	runProp(t, sp)
+}
